@@ -670,12 +670,24 @@ DoOpEnd(e) ==
 (* --- panics injected into database callbacks (C12) --- *)
 \* event Panic: a callback panicked while the engine was at `pc`.  Whatever strand
 \* ensure_root_answer held in a local is gone (deviation SLG_PanicWhileStrandHeld).
+\* merge_answer_into_strand enqueues the strand that waits for the table's NEXT answer before it unifies the answer into the strand
+\* (the first point at which it calls into the database): a panic during the merge leaves that strand in the queue
+PanicDuringMergeLeaves ==
+  IF pc = "selected" /\ held # <<>> /\ held[1].sel # 0
+  THEN LET s == held[1]  t == s.selT + 1 IN
+       IF s.lits[s.sel].pos /\ s.selA < Len(tables[t].answers)
+       THEN LET ans == tables[t].answers[s.selA + 1] IN
+            IF ~(tables[TopT].mode = "Complete" /\ ans.amb) /\ (~ans.trivsub \/ ans.del # <<>>)
+            THEN <<[s EXCEPT !.selA = s.selA + 1]>> ELSE <<>>
+       ELSE <<>>
+  ELSE <<>>
 DoPanic(e) ==
   /\ pc \notin {"idle", "exit", "panicked"} \/ (pc = "idle" /\ op.phase \in {"stream"})
   /\ lost' = lost \o held
   /\ held' = <<>>
   /\ pc' = "panicked"
-  /\ UNCHANGED <<tables, clock, stack, exitRes, stT, stA, lastRes, op>>
+  /\ tables' = IF PanicDuringMergeLeaves # <<>> THEN Enq(tables, TopT, PanicDuringMergeLeaves[1]) ELSE tables
+  /\ UNCHANGED <<clock, stack, exitRes, stT, stA, lastRes, op>>
 
 \* event OpEnd{class = "Panic"} after a panic: the unwinding reached the caller
 DoOpEndPanic(e) ==
